@@ -655,6 +655,15 @@ pub fn c08_units(seed: u64, thorough: bool) -> Vec<Unit> {
     tests("gen-test:int-expr-crossing", i32_, "validate(greater = KB, less = KA)", "pub struct T(i32);", &[lu], &[]);
     tests("gen-test:int-expr-crossing-inclusive", i32_, "validate(less_or_equal = KA, greater_or_equal = KB)", "pub struct T(i32);", &[lu], &[]);
     tests("gen-test:int-expr-consistent", i32_, "validate(greater = KA, less = KB)", "pub struct T(i32);", &[], &[lu]);
+    // bound expressions whose top-level operator binds looser than `>=`: the generated comparison has to group them
+    tests("gen-test:int-expr-bitor-upper", i32_, "validate(greater = 1, less = KA | 2)", "pub struct T(i32);", &[], &[lu]);
+    tests("gen-test:int-expr-bitand-lower", i32_, "validate(greater_or_equal = KB & 96, less_or_equal = 120)", "pub struct T(i32);", &[], &[lu]);
+    tests("gen-test:int-expr-bitops-both", i32_, "validate(greater = KA ^ 1, less = KB | 1)", "pub struct T(i32);", &[], &[lu]);
+    tests("gen-test:int-expr-bitops-crossing", i32_, "validate(greater = KB | 1, less = KA & 7)", "pub struct T(i32);", &[lu], &[]);
+    tests("gen-test:int-expr-cast-upper", i32_, "validate(greater = 1, less = KB as i64 as i32)", "pub struct T(i32);", &[], &[lu]);
+    tests("gen-test:int-expr-if-upper", i32_, "validate(greater = 1, less = if KA > 3 { 9 } else { 1 })", "pub struct T(i32);", &[], &[lu]);
+    tests("gen-test:len-expr-bitor", s_, "validate(len_char_min = KA & 7, len_char_max = KB | 1)", "pub struct T(String);", &[], &[lc]);
+    tests("gen-test:float-expr-if", f64_, "validate(greater = if KA > 3.0 { 1.0 } else { 9.0 }, less = KB)", "pub struct T(f64);", &[], &[lu]);
     tests("gen-test:int-mixed-literal-expr-crossing", i32_, "validate(greater = 1000, less = KB)", "pub struct T(i32);", &[lu], &[]);
     tests("gen-test:float-expr-crossing", f64_, "validate(greater_or_equal = KB, less = KA)", "pub struct T(f64);", &[lu], &[]);
     tests("gen-test:float-expr-consistent", f64_, "validate(greater_or_equal = KA, less_or_equal = KB)", "pub struct T(f64);", &[], &[lu]);
